@@ -657,6 +657,25 @@ def seq_method(interp, recv, name, args, kwargs):
         ctx().assume(z3.Length(r.term) == n)
         ctx().assume(z3.ForAll([i], z3.Implies(z3.And(i >= 0, i < n), r.term[i] == m)))
         return r
+    if name == "replace" and len(args) == 2 and not is_sym(args[0]) and not is_sym(args[1]) and len(args[0]) > 0:
+        # exact only where at most one (non-overlapping) occurrence fits: z3's replace substitutes the first one
+        if not interp.truth(mk_bool(z3.Contains(t, seq_term(args[0])))):
+            return recv  # no occurrence at all
+        if interp.truth(mk_bool(n < 2 * len(args[0]))):
+            axiom("bytes.replace(old, new) on a value shorter than two copies of old: the first occurrence, if any, is substituted")
+            return core._seq_value(z3.Replace(t, seq_term(args[0]), seq_term(args[1])), kind)
+        if len(args[0]) == 1 and interp.truth(mk_bool(n <= 4)):
+            # a one-byte pattern on a short value: substitute byte by byte (exact)
+            axiom("bytes.replace with a one-byte pattern acts on every byte independently")
+            old_e = seq_term(args[0])[0]
+            new_t = seq_term(args[1])
+            for k in range(0, 5):
+                if interp.truth(mk_bool(n == k)):
+                    parts = [z3.If(t[j] == old_e, new_t, z3.Unit(t[j])) for j in range(k)]
+                    if not parts:
+                        return recv
+                    return core._seq_value(parts[0] if len(parts) == 1 else z3.Concat(*parts), kind)
+        raise Unsupported("replace on a symbolic value that may hold several occurrences")
     if name == "strip" and not args and kind == "bytes":
         axiom("bytes.strip(): the slice between the first and the last byte that is not ASCII whitespace (9-13, 32)")
         c = ctx()
